@@ -1,7 +1,43 @@
 LEVEL = "model_checking"
+
+# Sequential half of C03 (all call histories on one thread).  The concurrent half (VSX) lives next to it
+# under other file names.
+#
+# One source, built twice: with the shipped page size and with -DAWS_SBA_PAGE_SIZE=2048, which
+# allocator_sba.c explicitly allows (its only constraint: bins are powers of two below half a page,
+# 512 < 1024).  The third build is the 2048 configuration against the Debug library with DEBUG_BUILD, so the
+# AWS_ASSERT / AWS_PRECONDITION lines of allocator_sba.c and array_list are live as a second oracle.
+_P2K = ["-DAWS_SBA_PAGE_SIZE=((uintptr_t)2048)"]
 HARNESSES = [
-    dict(name="sbaseq", src=["sbaseq.c"], variant="asan", deadline={"quick": 120, "thorough": 900}),
-    dict(name="sbaseq2k", src=["sbaseq.c"], variant="asan", cflags=["-DAWS_SBA_PAGE_SIZE=((uintptr_t)2048)"],
-         deadline={"quick": 120, "thorough": 900}),
+    dict(name="sbaseq", src=["sbaseq.c"], variant="asan", deadline={"quick": 150, "thorough": 1200}),
+    dict(name="sbaseq2k", src=["sbaseq.c"], variant="asan", cflags=_P2K, deadline={"quick": 150, "thorough": 1200}),
+    dict(name="sbaseq2k-dbg", src=["sbaseq.c"], variant="asan-dbg", cflags=_P2K + ["-DSBASEQ_DEBUG_ONLY=1"],
+         tiers=["thorough"], deadline={"thorough": 600}),
 ]
-ASSUMPTIONS = []
+
+EXPLANATION = (
+    "ESX over acquire/calloc/realloc/release/bytes_active/bytes_reserved on the real allocator_sba.c (#included, its "
+    "posix_memalign/free redirected to a deterministic page pool that poisons freed pages; parent = counting galloc). "
+    "After every operation: every live block's per-slot pattern over its requested size, 16-byte alignment, pairwise "
+    "disjointness, placement (live pool page payload of a big-enough class, or live parent block), realloc prefix, "
+    "bytes_active == sum of size classes, bytes_reserved == pages held; with nothing live at most one page per class; "
+    "after every expansion: release all, destroy, pool empty, parent balance zero."
+)
+
+ASSUMPTIONS = [
+    "bounds: 9 slots (never more live blocks than the depth bound); sizes {1,32,33,64,65,256,257,512,513,700}; the full "
+    "ten-size alphabet (every (old,new) realloc pair incl. 0 and NULL) is explored to depth 5 (quick) / 6 (4096-byte page) "
+    "/ 7 (2048-byte page) because it has ~100 symbols; the page mechanics (exhaustion, turn-over, free-list purge when a "
+    "page goes back) are explored with sub-alphabets: {257,512,513} to depth 8/9 on both page sizes (bin 512 turns a "
+    "2048-byte page over after 3 blocks) single- and multi-threaded-flag, {512} on 4096 and {256} on 2048 (7 blocks per "
+    "page) to depth 12/14.  Bins are independent objects in allocator_sba.c (no shared state except the parent), which "
+    "is why per-bin sub-alphabets lose nothing but cross-bin interleavings deeper than the full-alphabet bound",
+    "multi_threaded=true is exercised on one thread only here (locks taken and released, never contended)",
+    "a block's size class is the bin of the page that serves it (read from the page header); a parent block shrunk in "
+    "place below 513 bytes stays a parent block and does not count as active",
+    "fresh requests <= 512 must be pooled and larger ones forwarded (allocator.h); bytes_reserved must equal the pages "
+    "held (allocator.h: 'the current system memory used by the SBA')",
+    "states are de-duplicated on a 128-bit hash of the canonical state: per bin cursor offset, active pages with counts, "
+    "free-chunk list in order, sorted slot table; pages renamed by first appearance, slots interchangeable",
+    "parent (large-block) behaviour is galloc's; array-list growth inside the SBA is not reachable with 9 blocks",
+]
